@@ -58,6 +58,10 @@ REASONS = {
     "done": lambda: failure.Failure(error.ConnectionDone()),
     "lost": lambda: failure.Failure(error.ConnectionLost()),
     "other": lambda: failure.Failure(RuntimeError("transport exploded")),
+    # what a reactor really hands over: exceptions whose args are not all strings
+    "reset": lambda: failure.Failure(error.ConnectionLost(104, "Connection reset by peer")),
+    "pipe": lambda: failure.Failure(OSError(32, "Broken pipe")),
+    "noargs": lambda: failure.Failure(error.ConnectionAborted()),
 }
 
 
@@ -66,10 +70,10 @@ def sessions():
                                                                         "post_cmds": pc, "post_wd": pw, "resubmit": rs,
                                                                         "wd_reenter": wr, "lose_in_cb": lic,
                                                                         "late_watch": lw, "wd_cancel": wc,
-                                                                        "debug": dbg},
+                                                                        "debug": dbg, "legacy": dbg and wc or (lw and wr)},
                      st.lists(c01.commands(long=False, max_parts=3), min_size=0, max_size=5),
                      c01.schedules(),
-                     st.sampled_from(["done", "lost", "other"]),
+                     st.sampled_from(["done", "lost", "other", "reset", "pipe", "noargs"]),
                      st.integers(0, 2), st.integers(0, 4), st.integers(0, 2),
                      st.sampled_from([0, 0, 1, 2]), st.booleans(),
                      st.one_of(st.none(), st.none(), st.none(), st.integers(0, 4)),
@@ -121,6 +125,7 @@ class _CutRun(object):
         self.cut_inside_reply = False
         self.wd_reentered = False
         self.wd_cancelled = 0
+        self.legacy_told = 0
         self.resubmitted = 0
         self.lost_in_callback = False
         self.effective_cut = None
@@ -128,6 +133,18 @@ class _CutRun(object):
 
         self.srv = ScriptedServer(self._handler)
         self.pipe = ControlPipe(self.srv, auto=False)
+        if case.get("legacy"):
+            # the deprecated on_disconnect Deferred, with a handler that submits a command when told
+            import warnings
+            with warnings.catch_warnings():
+                warnings.simplefilter("ignore")
+                od = self.pipe.proto.on_disconnect
+
+            def told(r):
+                self.legacy_told += 1
+                self._submit({"kind": "plain", "text": "GETINFO version"}, self.post_watches, [])
+                return None
+            od.addBoth(told)
         if case.get("debug"):
             # the documented debugging aid: a transcript of the conversation in ./txtorcon-debug.log (the check runs
             # in its own scratch directory)
@@ -372,6 +389,8 @@ def _classify(res, r, case):
         res.label("pending-request-cancelled-from-inside-a-notification")
     if case.get("debug"):
         res.label("debug-transcript-on")
+    if r.legacy_told:
+        res.label("legacy-on_disconnect-handler-submits-a-command")
     if r.lost_in_callback:
         res.label("loss-reported-from-inside-a-reply-callback")
     if r.late:
@@ -418,7 +437,7 @@ def drive_allcuts(case):
 
 APIS = ["queue_command", "get_info_raw", "get_info", "get_info_single", "get_info_incremental", "get_conf",
         "get_conf_single", "get_conf_raw", "set_conf", "signal", "add_event_listener", "remove_event_listener", "quit",
-        "protocolinfo"]
+        "protocolinfo", "add_event_listener", "remove_event_listener", "remove_event_listener"]
 _API_EVENTS = ["CIRC", "STREAM", "ORCONN", "NOTICE", "ADDRMAP", "HS_DESC"]
 
 
@@ -429,11 +448,17 @@ def api_calls(max_size):
 @st.composite
 def api_cases(draw):
     calls = draw(api_calls(6))
+    post_extra = []
+    if draw(st.sampled_from([False, True, True])):
+        # ordinary clean-up code: a listener added (and usually acknowledged) before the loss is removed after it
+        n = draw(st.integers(0, 5))
+        calls = [["add_event_listener", n]] + calls
+        post_extra = [["remove_event_listener", n]]
     return {"calls": calls,
             "answered": draw(st.integers(0, len(calls))),
             "partial": draw(st.integers(0, 12)),
-            "reason": draw(st.sampled_from(["done", "lost", "other"])),
-            "post": draw(api_calls(5))}
+            "reason": draw(st.sampled_from(["done", "lost", "other", "reset", "pipe"])),
+            "post": post_extra + draw(api_calls(5))}
 
 
 def _api_reply(line):
